@@ -1359,7 +1359,8 @@ class _RecordRun:
         b, o = to_np(back), to_np(obs)
         if b.shape != o.shape:
             ctx.fail("roundtrip_shape", self.facts(**f), f"select after insert returned shape {b.shape}")
-        elif np.any(np.abs(b - o) > 1e-4 + 1e-4 * np.abs(o)):
+        # last term: the extrapolated bracket values can be orders of magnitude larger than the sample (float32 cancellation in next - prev)
+        elif np.any(np.abs(b - o) > 1e-4 + 1e-4 * np.abs(o) + 1e-6 * float(rt.value.detach().abs().max())):
             ctx.fail("roundtrip", self.facts(**f), f"insert({o.tolist()}, t={op['time']}) then select returned {b.tolist()}")
         # other slots untouched: every slot not bracketing an element keeps its value
         numel = int(np.prod(S))
